@@ -220,15 +220,20 @@ NOT_APPLICABLE = {
     "C20": "extraction is a pure function of the archive bytes through the stdlib tarfile reader; the statement has no history, fault, crash or interleaving dimension (DESIGN.md section 0)",
 }
 
-_DISK_TEXT = ("seeded deterministic simulation, fault-free configuration: sampled exploration of (writer history x image geometry x "
-              "placement x request) against a reference model; a clean batch is evidence, not proof")
+_DISK_TEXT = ("seeded deterministic simulation: sampled exploration of (writer history x image geometry x placement x request) against a "
+              "reference model, in a fault-free configuration (about 90 % of the runs, incl. a twin image read first in the same process) "
+              "and a fault-injecting one (transient I/O faults - EIO, EIO after the position moved, short delivery of structured "
+              "metadata - during open and inside requests, placed by the trace of a warm attempt; the faulted operation may fail, "
+              "nothing may ever return wrong bytes); a clean batch is evidence, not proof")
 _DISK_NOTE = ("trusted base: the writer stub's reading of the format, the reference model, SimFile/SimHandle semantics "
-              "(buffered-file semantics: short reads only at EOF); sampling, not exhaustive")
-_DISK_TECH = "deterministic simulation (stub writer peer + simulated storage + reference model oracle), seeded search, ddmin replay"
+              "(buffered-file semantics: short reads only at EOF, except where the short-delivery fault is injected); sampling, not exhaustive")
+_DISK_TECH = ("deterministic simulation (stub writer peer + simulated storage + reference model oracle) with transient I/O fault "
+              "injection at the handle seam, seeded search, ddmin replay")
 
 MANIFEST_TEXT = {
     "C17": dict(text="seeded deterministic simulation of a copy-on-write store writer with crash points between device writes; key/value tree "
-                     "model compared after every step and at every cut; sampled",
+                     "model compared after every step and at every cut, decoded twice per object, in 20 % of the runs with a transient "
+                     "I/O fault during the first decode; sampled",
                 design_ref="DESIGN.md 4/C17", note="trusted base: the stub writer's reading of an undocumented format (fixture-anchored by an independent decoder)",
                 technique="deterministic simulation (stub store writer as a device-write log, crash-point cuts, tree reference model), seeded search, ddmin replay"),
     "C15": dict(text="deterministic simulation against a stub sealer: fault-free round trips over the cipher/MAC/KDF matrix and enumerated "
@@ -257,22 +262,28 @@ MANIFEST_TEXT = {
                 design_ref="DESIGN.md 4/C09", note="does not decide the 'statically, all code paths' half of the quantifier; reach is reported as "
                 "library call sites that opened files vs an AST scan of candidate sites",
                 technique="deterministic simulation + fault injection (EIO/ENOENT/EACCES/truncate/bitflip) with a mutation ledger at the storage/namespace seam and OS audit hook"),
-    "C14": dict(text="seeded deterministic simulation, fault-free configuration plus writer crash states (stale secondary header): "
-                     "metadata recorded by the stub writer vs attributes exposed by the reader; sampled",
+    "C14": dict(text="seeded deterministic simulation: fault-free configuration, writer crash states (stale secondary header) and a "
+                     "fault-injecting configuration (one read call fails while the image is opened or inspected: the open may fail, what is "
+                     "exposed without an exception must equal what is stored); metadata recorded by the stub writer vs attributes exposed "
+                     "by the reader; sampled",
                 design_ref="DESIGN.md 4/C14", note=_DISK_NOTE, technique="deterministic simulation (stub writer records stored metadata; invariant at acquisition; header-update crash states)"),
     "C13": dict(text="seeded deterministic simulation on sparse virtual storage with an I/O ledger: absolute budgets, a sparse/dense "
                      "metamorphic pair with identical expected ledgers, and content at extreme offsets; sampled",
                 design_ref="DESIGN.md 4/C13", note=_DISK_NOTE + "; budget constants are generous and linear in request + touched metadata",
                 technique="deterministic simulation with seam-side I/O accounting (storage ledger), metamorphic sparse/dense pair, reference model"),
     "C10": dict(text="seeded deterministic simulation of descriptor-driven multi-file disks on a simulated namespace (incl. missing-extent "
-                     "faults); concatenation reference model; sampled",
+                     "and truncated-extent faults); concatenation reference model; sampled",
                 design_ref="DESIGN.md 4/C10", note=_DISK_NOTE, technique="deterministic simulation (multi-file worlds on a simulated namespace, missing-file fault), concatenation model, ddmin replay"),
     "C07": dict(text="seeded deterministic simulation of layered writer histories on a simulated namespace with parent-location "
-                     "configurations and namespace faults; n-layer overlay model + 'open must raise' oracle; sampled",
+                     "configurations, namespace faults (missing / unreadable / corrupt ancestors, damaged descriptors, an intact twin chain "
+                     "elsewhere) and transient I/O faults inside requests on any layer's handle; n-layer overlay model + 'open must raise' "
+                     "oracle; sampled",
                 design_ref="DESIGN.md 4/C07", note=_DISK_NOTE + "; parent resolution is exercised through the patched pathlib seam only",
                 technique="deterministic simulation (layered stub writers + simulated namespace + namespace fault injection), overlay reference model, ddmin replay"),
     "C08": dict(text="seeded deterministic simulation of client access histories over every stream class, two buffer sizes per history, "
-                     "self-consistency + contract oracle; sampled, not exhaustive",
+                     "self-consistency + contract oracle (layered worlds also against each view's reference content); 15 % of the histories "
+                     "carry transient I/O faults armed between operations (the operation that meets one may fail and the client "
+                     "re-positions; every byte returned then or later must be right); sampled, not exhaustive",
                 design_ref="DESIGN.md 4/C08", note="trusted base: SimFile/SimHandle semantics, the contract model of AlignedStream positions; "
                 "a consistent misread is C01-C06's business, not C08's", technique="deterministic simulation of access histories (seeded search over op sequences x buffer sizes x cache knobs), ddmin replay"),
     "C01": dict(text=_DISK_TEXT, design_ref="DESIGN.md 4/C01", note=_DISK_NOTE, technique=_DISK_TECH),
